@@ -400,19 +400,21 @@ Section Sound.
     get_decl P m i = Some d -> get_decl P m' i' = Some d' -> d_ref d = Some x -> d_ref d' = Some x ->
     sig_get E m i = Some t -> sig_get E m' i' = Some t' -> t = t'.
 
+  Variable lx : bool.
+
   Lemma sound : forall n s e a G t,
     synth E G e = Some t -> stack_ok G (scopes s) -> refs_ok (refs s) ->
-    ok_res (scopes s) (VT t) (eval false P n s e a).
+    ok_res (scopes s) (VT t) (eval lx P n s e a).
   Proof.
     induction n as [|n IH]; intros s e a G t Hty Hst Hrf; [exact I|].
     set (fr := scopes s) in *.
     assert (IHs : forall s0 e0 a0 t0, synth E G e0 = Some t0 -> refs_ok (refs s0) -> scopes s0 = fr ->
-                                      ok_res fr (VT t0) (eval false P n s0 e0 a0)).
+                                      ok_res fr (VT t0) (eval lx P n s0 e0 a0)).
     { intros s0 e0 a0 t0 H0 Hr0 Hs0. rewrite <- Hs0. apply (IH s0 e0 a0 G t0 H0); [rewrite Hs0; exact Hst|exact Hr0]. }
     assert (Hstep : forall {B} (c : aval -> res B) (Q : B -> Prop) t0,
                (forall va, VT t0 va -> pure_ok (c va) /\ forall x, c va = Ok x -> Q x) ->
                forall s0 e0, synth E G e0 = Some t0 -> refs_ok (refs s0) -> scopes s0 = fr ->
-               ok_res fr Q (do (s', v) <- eval false P n s0 e0 []; do x <- c v; Ok (s', x))).
+               ok_res fr Q (do (s', v) <- eval lx P n s0 e0 []; do x <- c v; Ok (s', x))).
     { intros B c Q t0 Hc s0 e0 H0 Hr0 Hs0. eapply ok_bind; [apply IHs; eassumption|].
       intros s1 va Hva Hr1 Hs1. destruct (Hc va Hva) as [Hp Hq]. cbn beta iota. apply ok_pure; [exact Hp|].
       intros x Hx. apply ok_ret; auto. }
@@ -435,7 +437,7 @@ Section Sound.
       destruct (d_params d) as [|p ps] eqn:Hps.
       + apply andb_prop in Hok as [Hrhs Hsch]. apply is_tag_eq in Hrhs.
         apply ok_pure; [apply compose_pure|]. intros da _.
-        assert (IHd : forall s0 a0, refs_ok (refs s0) -> ok_res (scopes s0) (VT t) (eval false P n s0 (d_rhs d) a0)).
+        assert (IHd : forall s0 a0, refs_ok (refs s0) -> ok_res (scopes s0) (VT t) (eval lx P n s0 (d_rhs d) a0)).
         { intros s0 a0 Hr0. apply (IH s0 (d_rhs d) a0 [] t Hrhs); [intros x t' Hx; discriminate Hx|exact Hr0]. }
         destruct (is_some (d_ref d) || d_rec d) eqn:Href.
         * replace (match d_ref d with Some _ => true | None => false end) with (is_some (d_ref d)) by reflexivity.
@@ -493,11 +495,22 @@ Section Sound.
         destruct (d_params d) as [|p ps] eqn:Hpd; [contradiction|].
         apply andb_prop in Hok as [Hlen Hrhs]. apply Nat.eqb_eq in Hlen. apply is_tag_eq in Hrhs.
         eapply ok_bind.
-        { apply (bind_args_ok fr (fun s0 e0 => eval false P n s0 e0 []) G args bs (p :: ps) s1 [] []); try assumption.
+        { apply (bind_args_ok fr (fun s0 e0 => eval lx P n s0 e0 []) G args bs (p :: ps) s1 [] []); try assumption.
           - intros s0 a0 b0 Hr0 Hs0 Hb0. apply IHs; [apply is_tag_eq, Hb0|exact Hr0|exact Hs0].
           - intros x t' Hx. discriminate Hx. }
         intros s2 sc Hsc Hr2 Hs2. cbn beta iota.
         apply ok_pure; [apply compose_pure|]. intros da _.
+        assert (Hlenargs : length args = length (p :: ps)).
+        { pose proof (all2_length _ _ _ Hall). congruence. }
+        destruct lx.
+        { (* the lexical semantics: the arity test passes, the body runs on its own scope only *)
+          rewrite Hlenargs, Nat.ltb_irrefl.
+          assert (Hst1 : stack_ok (mkctx (p :: ps) bs []) (scopes (mk_st (refs s2) [((seq s2 + 1)%N, sc)] (seq s2 + 1)%N))).
+          { intros x t' Hx. destruct (Hsc x t' Hx) as (v & a' & Hget & Hv). exists v, a'. split; [|exact Hv].
+            cbn [scopes lookup_binding]. rewrite Hget. reflexivity. }
+          pose proof (IH (mk_st (refs s2) [((seq s2 + 1)%N, sc)] (seq s2 + 1)%N) (d_rhs d) (extend da a) _ t Hrhs Hst1 Hr2) as Hbody.
+          destruct (eval true P n (mk_st (refs s2) [((seq s2 + 1)%N, sc)] (seq s2 + 1)%N) (d_rhs d) (extend da a)) as [[s3 rv]|x|p0|]; cbn [bind ok_res] in *; try exact I; [|exact Hbody].
+          destruct Hbody as (Hv & Hr3 & _). split; [exact Hv|]. split; [exact Hr3|exact Hs2]. }
         assert (Hst2 : stack_ok (mkctx (p :: ps) bs []) (scopes (push_scope s2 sc))).
         { intros x t' Hx. destruct (Hsc x t' Hx) as (v & a' & Hget & Hv). exists v, a'. split; [|exact Hv].
           cbn [push_scope scopes lookup_binding]. rewrite Hget. reflexivity. }
@@ -517,7 +530,7 @@ Section Sound.
         - injection Hy as <-. exists (VRecur key), []. split; [reflexivity|exact Hsch].
         - apply Hst, Hy. }
       pose proof (IH (push_scope s sc) e a _ t Hbody Hst2 Hrf) as Hb.
-      destruct (eval false P n (push_scope s sc) e a) as [[s1 [rv ra]]|y|p0|]; cbn [bind ok_res] in *; try exact I; [|exact Hb].
+      destruct (eval lx P n (push_scope s sc) e a) as [[s1 [rv ra]]|y|p0|]; cbn [bind ok_res] in *; try exact I; [|exact Hb].
       destruct Hb as (Hv & Hr1 & Hs1). cbn [VT fst snd] in *. split; [split; [exact Hsch|exact Hv]|]. split.
       + cbn [set_refs refs pop_scope]. apply rinsert_ok; [exact Hr1|]. exists t. cbn [fst snd]. split; [exact Hsch|]. split; [exact Hv|exact I].
       + cbn [set_refs scopes pop_scope]. rewrite Hs1. reflexivity.
@@ -549,12 +562,12 @@ Section Sound.
       assert (Hschema_ops : forall (okx : expr -> bool), (forall o, okx o = true -> exists t0, synth E G o = Some t0 /\ is_schema_t t0 = true) ->
                 forallb okx es = true -> is_schema_t t = true -> N.eqb op 3 = false -> vop_of op <> None ->
                 ok_res fr (VT t) (if N.eqb op 3
-                   then do (s1, rs) <- map_st (fun s o => do (s', v) <- eval false P n s o []; do r <- cast_ranges v; Ok (s', r)) s es;
+                   then do (s1, rs) <- map_st (fun s o => do (s', v) <- eval lx P n s o []; do r <- cast_ranges v; Ok (s', r)) s es;
                         Ok (s1, (VRanges (fold_left (im_extend rgkey_eqb) rs []), a))
                    else match vop_of op with
                         | None => Panic P_node
                         | Some vo =>
-                            do (s1, ss) <- map_st (fun s o => do (s', v) <- eval false P n s o []; do sc <- cast_schema v; Ok (s', sc)) s es;
+                            do (s1, ss) <- map_st (fun s o => do (s', v) <- eval lx P n s o []; do sc <- cast_schema v; Ok (s', sc)) s es;
                             Ok (s1, (VOp vo ss, a))
                         end)).
       { intros okx Hokx Hall Hst' Hop Hvop. rewrite Hop. destruct (vop_of op) as [vo|]; [|contradiction].
@@ -598,7 +611,7 @@ Section Sound.
         apply (Hstep _ cast_schema _ t0 (step_schema t0 Hs0') s0 x Ht0 Hr0 Hs0). }
       intros s1 schema _ Hr1 Hs1. cbn beta iota zeta.
       eapply ok_bind.
-      { apply (eval_metas_ok fr (fun s0 e0 => eval false P n s0 e0 []) G metas); [|exact Hms|exact Hr1|exact Hs1].
+      { apply (eval_metas_ok fr (fun s0 e0 => eval lx P n s0 e0 []) G metas); [|exact Hms|exact Hr1|exact Hs1].
         intros s0 rhs t0 Ht0 Hr0 Hs0. apply IHs; assumption. }
       intros s2 [[status media] headers] _ Hr2 Hs2. apply ok_ret; [reflexivity|exact Hr2|exact Hs2].
     - (* EXfer *)
@@ -662,11 +675,11 @@ Section Sound.
 
   Theorem program_sound n rs :
     forallb (fun r => has relation_like_t (synth E [] r)) rs = true ->
-    match eval_program false P n rs with Panic p => allowed p | _ => True end.
+    match eval_program lx P n rs with Panic p => allowed p | _ => True end.
   Proof.
     intros Hrs. unfold eval_program.
     assert (H : ok_res [] (fun bs : list relation => Forall (fun _ => True) bs /\ length bs = length rs)
-                  (map_st (fun s r => do (s', v) <- eval false P n s r []; do rel <- cast_relation (fst v); Ok (s', rel)) st0 rs)).
+                  (map_st (fun s r => do (s', v) <- eval lx P n s r []; do rel <- cast_relation (fst v); Ok (s', rel)) st0 rs)).
     { apply (map_st_ok [] (fun r => has relation_like_t (synth E [] r)) (fun _ : relation => True)); [|exact Hrs|constructor|reflexivity].
       intros s x Hx Hr Hs. apply has_some in Hx as (t0 & Ht0 & Hrl).
       eapply ok_bind.
@@ -719,12 +732,12 @@ Proof.
   cbn [fst snd]. rewrite Hx. left. reflexivity.
 Qed.
 
-Theorem typed_programs E P rs n :
+Theorem typed_programs_lx E P rs lx n :
   wt_progb E P rs = true ->
-  match eval_program false P n rs with Panic p => allowed p | _ => True end.
+  match eval_program lx P n rs with Panic p => allowed p | _ => True end.
 Proof.
   unfold wt_progb. intros H. apply andb_prop in H as [H Hrs]. apply andb_prop in H as [Hds Hnamed].
-  apply (program_sound E P); [| | |exact Hrs].
+  refine (program_sound E P _ _ _ lx n rs Hrs).
   - intros m i d Hd. unfold get_decl in Hd. unfold sig_get.
     destruct (nth_error P (N.to_nat m)) as [ds|] eqn:Hm; [|discriminate Hd].
     destruct (all2_nth1 _ _ _ _ _ Hds Hm) as (ts & -> & Hall).
@@ -740,6 +753,11 @@ Proof.
     rewrite forallb_forall in Hnamed. specialize (Hnamed _ Hin'). cbn [fst snd] in Hnamed.
     rewrite N.eqb_refl in Hnamed. cbn [negb orb] in Hnamed. apply tag_eqb_eq, Hnamed.
 Qed.
+
+Corollary typed_programs E P rs n :
+  wt_progb E P rs = true ->
+  match eval_program false P n rs with Panic p => allowed p | _ => True end.
+Proof. apply typed_programs_lx. Qed.
 
 (** * witnesses: each allowed cast does panic on a well-typed program (the known findings) *)
 Definition w_E (ts : list tag) : tenv := mk_tenv [ts] [].
